@@ -11,7 +11,8 @@ RULE = (
     "cases = (a) loss specs of every kind (ODE / stationary / non-stationary single losses and 1..3-unknown system "
     "losses) with random subsets of terms, with and without parameter / observation parts; (b) generator "
     "configurations of every kind (ODE, stationary 1-D/2-D with border, space-time both product modes, observations, "
-    "parameters, multi-network observations) advanced by k get_batch calls. Oracle: deep snapshots (pytree structure + "
+    "parameters, multi-network observations) advanced by k get_batch calls, in x64 and in the default 32-bit precision; "
+    "the factor methods (inside_batch, border_batch, temporal_batch, ...) are checked for purity too. Oracle: deep snapshots (pytree structure + "
     "bytes of every leaf + key-by-key copies of every dict reachable through eq_params / batch dicts) of all arguments "
     "before and after the call are identical; a repeated call returns bit-identical results; eager vs "
     "jax.jit(lambda l,p,b: l.evaluate(p,b)) vs primal of value_and_grad agree within rtol 1e-9 (x64); get_batch eager "
